@@ -221,6 +221,10 @@ pub trait DynPart: Sync + Send {
     fn fuzz_case(&self, _data: &[u8]) -> Option<(Value, bool, Option<Fail>)> {
         None
     }
+    /// the case `fuzz_case` would run for these bytes, without running it
+    fn fuzz_generate(&self, _data: &[u8]) -> Option<Value> {
+        None
+    }
 }
 
 pub struct Part<P: Prop>(pub P);
@@ -491,16 +495,42 @@ impl<P: Prop> DynPart for Part<P> {
         }
     }
 
+    fn fuzz_generate(&self, data: &[u8]) -> Option<Value> {
+        let case = self.fuzz_tree(data)?;
+        Some(serde_json::to_value(&case).unwrap_or(Value::Null))
+    }
+
     fn fuzz_case(&self, data: &[u8]) -> Option<(Value, bool, Option<Fail>)> {
-        let cfg = Config { failure_persistence: None, rng_seed: RngSeed::Fixed(0), ..Config::default() };
-        let rng = TestRng::from_seed(RngAlgorithm::PassThrough, data);
-        let mut runner = TestRunner::new_with_rng(cfg, rng);
-        // the quick-tier strategy: small cases, many executions
-        let tree = self.0.strategy(Tier::Quick).new_tree(&mut runner).ok()?;
-        let case = tree.current();
+        let case = self.fuzz_tree(data)?;
         let mut st = CaseStats::default();
         let r = run_check(&self.0, &case, &mut st);
         Some((serde_json::to_value(&case).unwrap_or(Value::Null), st.nontrivial, r.err()))
+    }
+}
+
+impl<P: Prop> Part<P> {
+    fn fuzz_tree(&self, data: &[u8]) -> Option<P::Case> {
+        let cfg = Config { failure_persistence: None, rng_seed: RngSeed::Fixed(0), ..Config::default() };
+        // an exhausted pass-through RNG yields zeros, on which rand's rejection sampling never
+        // terminates: the input is followed by a fixed pseudo-random tail
+        static TAIL: std::sync::OnceLock<Vec<u8>> = std::sync::OnceLock::new();
+        let tail = TAIL.get_or_init(|| {
+            let mut x = 0x9E37_79B9_7F4A_7C15u64;
+            let mut v = Vec::with_capacity(1 << 20);
+            while v.len() < (1 << 20) {
+                x = splitmix(x);
+                v.extend_from_slice(&x.to_le_bytes());
+            }
+            v
+        });
+        let mut bytes = Vec::with_capacity(data.len() + tail.len());
+        bytes.extend_from_slice(data);
+        bytes.extend_from_slice(tail);
+        let rng = TestRng::from_seed(RngAlgorithm::PassThrough, &bytes);
+        let mut runner = TestRunner::new_with_rng(cfg, rng);
+        // the quick-tier strategy: small cases, many executions
+        let tree = self.0.strategy(Tier::Quick).new_tree(&mut runner).ok()?;
+        Some(tree.current())
     }
 }
 
@@ -848,4 +878,16 @@ pub fn frac(i: u16, n: usize) -> usize {
 
 pub fn boxed<S: Strategy + 'static>(s: S) -> BoxedStrategy<S::Value> {
     s.boxed()
+}
+
+/// Turns a libFuzzer input of the generic target into an ordinary replay file (without running it).
+pub fn fuzz_input_to_replay(prop: &Property, part: &str, data: &[u8]) -> Result<std::path::PathBuf, String> {
+    let p = prop.parts.iter().find(|p| p.name() == part).ok_or_else(|| format!("unknown part {}", part))?;
+    let case = p.fuzz_generate(data).ok_or("the strategy rejected these bytes")?;
+    let dir = std::path::Path::new(VERIF_ROOT).join("replays").join(prop.id);
+    std::fs::create_dir_all(&dir).map_err(|e| e.to_string())?;
+    let path = dir.join(format!("fail-fuzz-{}-{:016x}.json", part, hash_json(&case)));
+    let doc = json!({"property": prop.id, "part": part, "expect": "pass", "sig": "", "msg": "generated from a libFuzzer input", "case": case});
+    std::fs::write(&path, serde_json::to_vec_pretty(&doc).unwrap_or_default()).map_err(|e| e.to_string())?;
+    Ok(path)
 }
